@@ -86,6 +86,8 @@ UNIT_FALLBACK = {
     "nodeiter": _SLICE_FALLBACK + [("graph::verif::g_node_iter_seq", "3 calls next()/nth(n<=9) on a 9-base node")],
     "scan": [("msp::verif::m_scan_p2_k2m5", "P = Kmer2, k = 2, m = 5")],
     "graphfn": _SLICE_FALLBACK,
+    "nodesall": _SLICE_FALLBACK + [("graph::verif::g_node_iter_seq", "3 calls next()/nth(n<=9) on a 9-base node")],
+    "kmeriter": [("vmer::verif::lmer1::l_get_kmer_k5", "Lmer1 get_kmer Kmer5")],
     "compgraph": _SLICE_FALLBACK,
 }
 
@@ -130,7 +132,7 @@ PROPS["C13"] = {
     "title": "K-mer extraction agrees across all containers",
     "kani": lambda tier: kfam(["k_from_bytes", "k_from_ascii", "k_set_slice_mut", "k_extend_right", "k_empty", "k_len"], tier)
         + lmer(["l_from_slice"], tier, LMER_KS_ALL if tier == "thorough" else LMER_KS_QUICK),
-    "verus": [("dnastring", r"^DnaString::(get_kmer|addr|get|get_by_addr)$"), ("dnaslice", r"^DnaStringSlice::(get_kmer|get|rc)$"), ("kmeriter", None)],
+    "verus": [("dnastring", r"^DnaString::(get_kmer|addr|get|get_by_addr)$"), ("dnaslice", r"^DnaStringSlice::(get_kmer|get|rc)$"), ("kmeriter", None), ("containers", None)],
     "bounded": lambda tier: [("verif::kmers::%s::k_kmers_from" % t, "kmers_from_bytes/ascii on exactly K+3 bases") for t in (["kmer32", "kmer20", "kmer5"] if tier == "quick" else ALL_TYPES)]
         + ([(h, b) for h, b in _DNA_FALLBACK if "get_kmer" in h] if tier == "thorough" else []),
     "design_ref": "DESIGN.md §6 C13",
@@ -138,7 +140,7 @@ PROPS["C13"] = {
                   "iterator totals (exactly max(0,n-K+1) items) follow from the per-call next() contracts by induction over calls; the induction is a meta-argument, each step is a discharged obligation"],
     "trust": VERUS_TRUST + [SEAM_NOTE],
     "level_text": "get_kmer of the growable string, of forward and reverse-complemented slices at every offset, and of Lmer for each capacity is proved equal to the k-mer built from bases i..i+K (Verus unbounded with loop invariants across 32-base block boundaries; Kani complete per capacity); KmerIter/KmerExtsIter::next and the Vmer first/last/term accessors are proved against the window spec for any container and k-mer type satisfying the trait contract, incl. that boundary extensions are used only at the two ends.",
-    "level_note": "Trusted: Verus/Z3, Kani/CBMC, extractor rules, the V<->K seam. DnaBytes/DnaSlice::get_kmer reduce to Kmer::from_bytes (Kani k_from_bytes, complete).",
+    "level_note": "Trusted: Verus/Z3, Kani/CBMC, extractor rules, the V<->K seam. DnaBytes/DnaSlice::{len,get,get_kmer} and MerIter::next are verified from their real bodies (unit containers); get_kmer reduces to Kmer::from_bytes (Kani k_from_bytes, complete).",
 }
 
 PROPS["C14"] = {
@@ -208,12 +210,13 @@ PROPS["C18"] = {
     "title": "Node k-mer iteration obeys the iterator contract",
     "kani": lambda tier: [],
     "uses_kani": True,
-    "verus": [("nodeiter", r"^(NodeKmer::into_iter|NodeKmerIter::(next|nth|size_hint))$")],
+    "verus": [("nodeiter", r"^(NodeKmer::into_iter|NodeKmerIter::(next|nth|size_hint))$"),
+              ("nodesall", r"^(NodeIter::next|NodeIntoIter::next|DebruijnGraph::(iter_nodes|get_node_kmer|get_node|len))$")],
     "bounded": lambda tier: [("graph::verif::g_node_iter_seq", "node of 9 bases inside a 21-base string, Kmer4, 3 calls next()/nth(n<=9)")],
     "design_ref": "DESIGN.md §6 C18",
-    "undecided": ["'iterating all nodes visits every k-mer exactly once' needs NodeIntoIter/NodeIter (MPHF-backed graph): not under contract; distinct slots are boomphf's contract"],
+    "undecided": ["that a perfect-hash index built from the all-nodes iteration gives every k-mer a distinct slot is boomphf's contract (assumed); 'every k-mer of the graph exactly once' additionally needs that no k-mer occurs in two nodes, which is C01 (not decided)"],
     "trust": VERUS_TRUST + [SEAM_NOTE],
-    "level_text": "NodeKmer::into_iter, NodeKmerIter::next, nth and size_hint are proved against Iterator's documented contract for every node length and every n: usize (below and above the short-skip threshold, inside and beyond the remaining count): struct invariant kmer_id <= num_kmers, yielded k-mer == window(kmer_id), None forever after the end, no read outside the node, no overflow (Verus, unbounded).",
+    "level_text": "NodeKmer::into_iter, NodeKmerIter::next, nth and size_hint are proved against Iterator's documented contract for every node length and every n: usize (below and above the short-skip threshold, inside and beyond the remaining count): struct invariant kmer_id <= num_kmers, yielded k-mer == window(kmer_id), None forever after the end, no read outside the node, no overflow; NodeIter::next and NodeIntoIter::next are proved to visit node ids 0..len-1 in order, each exactly once, handing NodeKmerIter exactly that node's sequence, then None for good (Verus, unbounded).",
     "level_note": "Trusted: Verus/Z3, extractor rules (R8: Iterator impl emitted as inherent methods, associated types substituted), the V<->K seam, DnaStringSlice contracts proved in the same unit.",
 }
 
@@ -259,7 +262,7 @@ PROPS["C02"] = {
 PROPS["C03"] = {
     "title": "Extensions and edges denote exactly the real adjacencies, symmetrically",
     "kani": lambda tier: exts(EXTS_ALL) + kfam(["k_rc", "k_extend_left", "k_extend_right"], tier),
-    "verus": [("graphfn", r"^(DebruijnGraph::|Node::|BaseGraph::)")],
+    "verus": [("graphfn", r"^(DebruijnGraph::|Node::|BaseGraph::)"), ("nodesall", r"^Node::(l_edges|r_edges|edges)$")],
     "bounded": lambda tier: [("filter::verif::f_remove_censored_3", "3 table entries, Kmer4, both strandedness values"),
                              ("filter::verif::f_remove_censored_sharded", "2 valid entries, 3 shard k-mers, Kmer4")],
     "design_ref": "DESIGN.md §6 C03",
@@ -270,7 +273,7 @@ PROPS["C03"] = {
         "remove_censored_exts(_sharded): only a bounded stand-in (binary_search_by_key with a closure is outside the Verus subset used here)"],
     "trust": VERUS_TRUST + GRAPH_TRUST + [SEAM_NOTE,
         "graph well-formedness (DebruijnGraph::wf): every node has >= K bases; left_order/right_order map exactly the first/last k-mers of the nodes to their ids"],
-    "level_text": "find_link is proved to return Some((id, side, flip)) only for a node whose terminal k-mer on `side` equals the query (its reverse complement when flip), with (dir, side, flip) one of the four consistent shapes, flip only when unstranded and only when no same-strand match exists, and None exactly when no node end matches; find_edges returns only resolved links of the node's own extension bases; get_valid_exts / fix_exts are proved exact: an extension is kept iff it was present and resolves to a valid (non-censored) node, dropped only if unresolvable or censored, and nothing but the extension vector changes (Verus, unbounded, real bodies incl. the check_node closure).",
+    "level_text": "find_link is proved to return Some((id, side, flip)) only for a node whose terminal k-mer on `side` equals the query (its reverse complement when flip), with (dir, side, flip) one of the four consistent shapes, flip only when unstranded and only when no same-strand match exists, and None exactly when no node end matches; find_edges (and the public Node::l_edges / r_edges / edges) returns only resolved links of the node's own extension bases and one for every extension base that resolves; get_valid_exts / fix_exts are proved exact: an extension is kept iff it was present and resolves to a valid (non-censored) node, dropped only if unresolvable or censored, and nothing but the extension vector changes (Verus, unbounded, real bodies incl. the check_node closure).",
     "level_note": "Partial claim (see undecided_clauses). Trusted: Verus/Z3, extractor rules, abstract BoomHashMap/BitSet/SmallVec contracts, the V<->K seam. Table pruning (remove_censored_exts*) is a bounded Kani stand-in only.",
 }
 
